@@ -82,7 +82,10 @@ func (bi *BodyInspector) Inspect(ctx context.Context, r *http.Request, profile *
 
 	// Restore the body for downstream handlers by creating a new reader that combines
 	// what we've already read with any remaining unread content
-	r.Body = io.NopCloser(io.MultiReader(bytes.NewReader(buffer.Bytes()), r.Body))
+	// The pooled buffer is handed to the next request as soon as we return, so the restored
+	// body must own its bytes rather than alias the buffer's backing array.
+	inspected := append([]byte(nil), buffer.Bytes()...)
+	r.Body = io.NopCloser(io.MultiReader(bytes.NewReader(inspected), r.Body))
 
 	modelName := bi.extractModelName(buffer.Bytes())
 	if modelName != "" {
